@@ -180,6 +180,32 @@ def run(tier, seed, replay=None):
         if a2 != m2:
             R.disagreement("format: model %s impl %s" % (canon(m2)[:300], canon(a2)[:300]), req)
 
+    # ---- 1b. a template renders every record on its own: the output for a list is the concatenation of
+    #          the outputs for its records (no state carried from one record to the next)
+    treqs = [q for q in reqs if q["mode"] == "template" and len([rec for rec in q["records"] if rec]) >= 2][:400 if tier == "quick" else 6000]
+    singles, owner = [], []
+    for qi, q in enumerate(treqs):
+        for rec in q["records"]:
+            singles.append(dict(q, records=[rec]))
+            owner.append(qi)
+    whole = batch(hook_server, treqs)
+    parts = batch(hook_server, singles)
+    acc = {}
+    for qi, p_ in zip(owner, parts):
+        acc.setdefault(qi, []).append(p_)
+    for qi, (q, w) in enumerate(zip(treqs, whole)):
+        ps = acc.get(qi, [])
+        R.count("template.per_record_checked")
+        if any("out" not in p_ for p_ in ps):
+            # some record fails on its own: the whole list must fail too
+            if "out" in w:
+                R.violation("a record that cannot be rendered on its own was rendered as part of the list", q)
+            continue
+        want = "".join(p_["out"] for p_ in ps)
+        if w.get("out") != want:
+            R.violation("template output for %d records is not the concatenation of the outputs of the single records: %r vs %r" % (
+                len(ps), (w.get("out") or w.get("err") or "")[:120], want[:120]), q)
+
     # ---- 2. programs: numbering + every rendering of the same records, through the real binary
     for _ in range(n_prog):
         cmds = programs(r)
